@@ -153,13 +153,13 @@ example :
   integer type, and once it has been negated only to a must-be-signed variable
   or a *signed* integer type; a `fresh_float` slot only to a float variable or
   float type; a `fresh_record` slot only to a record variable, an anonymous
-  record or a named record type.
-  MISSING: (1) equality of the two resolved sides after a successful `unify`
-  (needs deep resolution through pointer chains); (2) "with exactly those
-  fields" for record variables (the proof tracks that the target is a record,
-  not the field names). Both are covered by the differential run of
-  `Unify.unify` against the real `unify_inner` (hook) and by the
-  literal-variable phase, not by a theorem. -/
+  record or a named record type with exactly the field names it was created
+  with (a permutation: `unify_fields` matches fields by name).
+  MISSING: equality of the two resolved sides after a successful `unify`
+  (needs deep resolution through pointer chains). It is covered by the
+  differential run of `Unify.unify` against the real `unify_inner` (hook) and
+  by the literal-variable / record-literal / generic-instantiation phases, not
+  by a theorem. -/
 
 open RotoV.Unify in
 /-- **T2 `unify_sound_partial`.** After ANY history of steps on the store
@@ -219,12 +219,16 @@ theorem floatvar_only_floats (d : Defs) (fuel : Nat) (ops : List Op)
   exact this
 
 open RotoV.Unify in
-/-- a record variable only ever resolves to a record -/
-theorem recordvar_only_records_partial (d : Defs) (fuel : Nat) (ops : List Op)
+/-- a record variable only ever resolves to a record with exactly the fields it
+    was created with (as a multiset of names: `unify_fields` matches by name,
+    in any order): another record variable, an anonymous record type, or a
+    named record type -/
+theorem recordvar_only_records (d : Defs) (fuel : Nat) (ops : List Op)
     (hd : DefsOk d (kindOf ops)) (hwf : ∀ op ∈ ops, op.ok (kindOf ops) = true)
-    (n i : Nat) (t : MTy) (hk : kindOf ops i = .rv) (h : find (run d fuel ops).s n i = some t) :
-    (∃ j fs, t = .recordVar j fs) ∨ (∃ fs, t = .record fs) ∨
-    (∃ m args, t = .name m args ∧ (d.recordFields m).isSome = true) := by
+    (n i : Nat) (t : MTy) (N : List Nat) (hk : kindOf ops i = .rv N)
+    (h : find (run d fuel ops).s n i = some t) :
+    (∃ j fs, t = .recordVar j fs ∧ (fnames fs).Perm N) ∨ (∃ fs, t = .record fs ∧ (fnames fs).Perm N) ∨
+    (∃ m args nfs, t = .name m args ∧ d.recordFields m = some nfs ∧ (fnames nfs).Perm N) := by
   have := unify_sound_partial d fuel ops hd hwf n i t h
   unfold Resolved at this
   rw [hk] at this
